@@ -1822,3 +1822,9 @@ MA('C09', 'Huber gradient norm without the power-space weights',
    'norm = PointwiseNorm(self.domain, 2)(x)',
    'norm = x[0].ufuncs.square()\nfor xi in x[1:]:\n    norm += xi.ufuncs.square()\nnorm.ufuncs.sqrt(out=norm)',
    'Huber[pspace weights')
+MA('C10', 'conjugate KL proximal keeps the copy of the first aliased input',
+   'odl/solvers/nonsmooth/proximal_operators.py',
+   'proximal_convex_conj_kl.ProximalConvexConjKL._call',
+   'x = x.copy()',
+   "if getattr(self, '_buf', None) is None:\n    self._buf = x.copy()\nx = self._buf",
+   'KullbackLeibler.convex_conj')
